@@ -2,7 +2,7 @@
 # runs every quick (or $1) check, prints a summary line each
 cd "$(dirname "$0")/.."
 tier=${1:-quick}
-for p in C01 C02 C03 C04 C05 C06 C07 C08 C09 C10 C11 C12 C13 C14 C15 C16 C17 C18 C19 C20; do
+for p in ${RUNALL_PROPS:-C01 C02 C03 C04 C05 C06 C07 C08 C09 C10 C11 C12 C13 C14 C15 C16 C17 C18 C19 C20}; do
   s=$(date +%s); out=$(./run $p --tier $tier 2>&1); rc=$?; e=$(date +%s)
   echo "$p rc=$rc $((e-s))s $(echo "$out" | grep -c '^VIOLATION') violations, $(echo "$out" | grep -c '^KNOWN-FINDING') known | $(echo "$out" | grep '^\[' | head -1)"
   echo "$out" | grep -E "violation:|HARNESS" | head -5
